@@ -93,8 +93,8 @@ pub fn generate_cancel(case_seed: u64, idx: u64, _tier: Tier) -> CancelCase {
         11 => Target::DeleteCollection,
         12 => Target::DbClose,
         _ => {
-            let new_set = (rng.below(128) as u8) | IX_NAME;
-            knobs.indexes = (rng.below(128) as u8) | IX_NAME;
+            let new_set = (rng.below(256) as u8) | IX_NAME;
+            knobs.indexes = (rng.below(256) as u8) | IX_NAME;
             Target::OpenWithIndexes(new_set)
         }
     };
@@ -179,7 +179,7 @@ fn check_dead_handle(s: &Setup, why: &str, ctx: &str) -> Result<(), Violation> {
     let c = s.world.coll.clone();
     let mark = s.sim.mut_log_len();
     c.set_read_only(false);
-    let spec = DocSpec { name: 6, age: 3, score: Some(2), tags: vec![], body: vec![2], vec: [0, 1, 0, 1] };
+    let spec = DocSpec { name: 6, age: 3, score: Some(2), tags: vec![], body: vec![2], vec: [0, 1, 0, 1], codes: vec![] };
     let r1 = block(c.add_from(&spec.to_doc(&s.world.vocab)));
     let r2 = block(c.flush(anda_db::unix_ms()));
     let r3 = block(c.save_extension("k1".into(), anda_db::schema::Fv::U64(9)));
@@ -232,7 +232,7 @@ fn run_one(case: &CancelCase, k: u64, rep: &mut RunReport, sig: &mut Sig) -> Res
                     let (c3, c4) = (coll.clone(), coll.clone());
                     let (slot_r, cancel_r, sib_r, reopened_r) = (&slot, &cancel_seq, &sib, &reopened);
                     let w2r = &mut w2;
-                    let sib_doc = DocSpec { name: 201, age: 9, score: Some(9), tags: vec![1], body: vec![3], vec: [1, 0, 1, 0] }.to_doc(&vocab);
+                    let sib_doc = DocSpec { name: 201, age: 9, score: Some(9), tags: vec![1], body: vec![3], vec: [1, 0, 1, 0], codes: vec![] }.to_doc(&vocab);
                     let ix = knobs.indexes;
                     // starved variant (see `setup`): the sibling starts at once, is admitted
                     // and parks at its first storage call, and stays there while anybody
@@ -310,7 +310,7 @@ fn run_one(case: &CancelCase, k: u64, rep: &mut RunReport, sig: &mut Sig) -> Res
                                 return Err(violation!("c06.acked-lost-across-reopen", "{ctx}: the sibling add was acknowledged with id {id} on the retired handle, but the handle open_collection returned does not contain it (ids {:?})", obs.docs.keys()));
                             }
                         }
-                        let next = DocSpec { name: 200, age: 8, score: Some(8), tags: vec![], body: vec![4], vec: [0, 1, 1, 0] }.to_doc(&vocab);
+                        let next = DocSpec { name: 200, age: 8, score: Some(8), tags: vec![], body: vec![4], vec: [0, 1, 1, 0], codes: vec![] }.to_doc(&vocab);
                         block(c2.add_from(&next)).map_err(|e| violation!("c06.fresh-handle-broken", "{ctx}: the next add on the handle open_collection returned failed: {e:?}"))?;
                         return Ok(false);
                     }
@@ -528,7 +528,7 @@ fn run_one(case: &CancelCase, k: u64, rep: &mut RunReport, sig: &mut Sig) -> Res
                 Ok(c) => {
                     if c.state() == anda_db::error::CollectionState::Active {
                         let mark = s.sim.mut_log_len();
-                        let r = block(c.add_from(&DocSpec { name: 5, age: 1, score: None, tags: vec![], body: vec![1], vec: [0, 0, 1, 1] }.to_doc(&vocab)));
+                        let r = block(c.add_from(&DocSpec { name: 5, age: 1, score: None, tags: vec![], body: vec![1], vec: [0, 0, 1, 1], codes: vec![] }.to_doc(&vocab)));
                         if r.is_ok() && !prefix_writes(&s.sim, mark).is_empty() {
                             return Err(violation!("c06.delete-resurrected", "{ctx}: the half-deleted name opened as a writable collection"));
                         }
@@ -637,7 +637,7 @@ pub fn shrink_cancel(case: &CancelCase, failing_k: Option<u64>) -> Vec<CancelCas
         c.prefix.remove(i);
         out.push(c);
     }
-    for bit in [IX_VEC, IX_BODY, IX_AGE_SCORE, IX_TAGS, IX_SCORE, IX_AGE] {
+    for bit in [IX_VEC, IX_BODY, IX_CODES, IX_AGE_SCORE, IX_TAGS, IX_SCORE, IX_AGE] {
         if case.knobs.indexes & bit != 0 {
             let mut c = case.clone();
             c.knobs.indexes &= !bit;
